@@ -944,7 +944,8 @@ class World:
         def check(res):
             bad = self.compare_tokens(res, exp)
             for n, v in bcast:
-                if not bad and n in res and not self.logical_equal(dict.__getitem__(res, n), [v] * nrow):
+                if not bad and n in res and M.col_values(dict.__getitem__(res, n)) != [v] * nrow and \
+                        not self.logical_equal(dict.__getitem__(res, n), [v] * nrow):
                     bad.append(("broadcast-value", f"column {n!r} of a 1-row operand should be {v!r} "
                                 f"x {nrow}, got {M.col_values(dict.__getitem__(res, n))!r}"))
             return bad
@@ -971,7 +972,8 @@ class World:
             elif not same_rows:
                 for n in tg:
                     v = M.col_values(dict.__getitem__(g, n))[0]
-                    if n in res and not self.logical_equal(dict.__getitem__(res, n), [v] * f.nrow):
+                    if n in res and M.col_values(dict.__getitem__(res, n)) != [v] * f.nrow and \
+                            not self.logical_equal(dict.__getitem__(res, n), [v] * f.nrow):
                         self.viol("C01", "broadcast", "C01.broadcast|update|length-one-value-not-broadcast",
                                   f"column {n!r} of the 1-row operand should be {v!r} x {f.nrow}")
                         break
